@@ -336,14 +336,33 @@ def recording(alg, rec, calls=None, margins=True, stoptol=None):
                                   (lambda t: t * (t > 0))(m_old * np.array(phi_row, dtype=float).reshape(-1))))})
         return res
 
+    orig_phi = C.calculate_phi
+
+    def wrap_phi(Data, Model, rank, factorIndex, Pi, epsilon):
+        # the same margin observed one level up (the convergence test may be written without vectorize_for_mu): the
+        # value MU compares with stoptol is max |min(A_n, 1 - Phi)| of the factor and the Phi just computed
+        Phi = orig_phi(Data, Model, rank, factorIndex, Pi, epsilon)
+        if calls is not None and stoptol:
+            try:
+                with np.errstate(all="ignore"):
+                    A = np.asarray(Model.factor_matrices[factorIndex], dtype=float)
+                    v = float(np.max(np.abs(np.minimum(A, 1 - np.asarray(Phi, dtype=float))))) if A.size else 0.0
+                calls.append({"key": None, "mu": True, "margin": abs(v - stoptol) / stoptol if math.isfinite(v) else math.inf,
+                              "fallback": False, "evals": 0, "bcast": False})
+            except Exception:  # noqa: BLE001
+                pass
+        return Phi
+
     C.tt_linesearch_prowsubprob = wrap
     if alg == "mu":
         C.vectorize_for_mu = wrap_vec
+        C.calculate_phi = wrap_phi
     try:
         yield
     finally:
         C.tt_linesearch_prowsubprob = orig
         C.vectorize_for_mu = orig_vec
+        C.calculate_phi = orig_phi
 
 
 @contextlib.contextmanager
